@@ -82,6 +82,14 @@ func (w *workerProc) kill() {
 // Do runs all tasks and returns results in task order. A worker that dies or
 // exceeds the timeout is restarted; its task gets Err set.
 func (p *Pool) Do(tasks []json.RawMessage, progress func(done int)) []Result {
+	return p.DoStop(tasks, func(int, Result) bool { return false })
+}
+
+// DoStop is Do with a per-result callback (called serially); when it returns
+// true no further tasks are started and the remaining results get Err "skipped".
+func (p *Pool) DoStop(tasks []json.RawMessage, onResult func(i int, res Result) bool) []Result {
+	var progress func(int)
+	stopped := false
 	n := p.N
 	if n <= 0 {
 		n = DefaultWorkers()
@@ -109,6 +117,12 @@ func (p *Pool) Do(tasks []json.RawMessage, progress func(done int)) []Result {
 			defer func() { w.kill() }()
 			for {
 				mu.Lock()
+				if stopped {
+					for next < len(tasks) {
+						results[next] = Result{Err: "skipped"}
+						next++
+					}
+				}
 				if next >= len(tasks) {
 					mu.Unlock()
 					return
@@ -157,6 +171,9 @@ func (p *Pool) Do(tasks []json.RawMessage, progress func(done int)) []Result {
 				mu.Lock()
 				done++
 				d := done
+				if onResult != nil && !stopped && onResult(idx, results[idx]) {
+					stopped = true
+				}
 				mu.Unlock()
 				if progress != nil {
 					progress(d)
